@@ -663,7 +663,11 @@ func execCachef(f []string) vlib.Res {
 		case dns.TypeDNAME:
 			res.Answer = append(res.Answer, &dns.DNAME{Hdr: hdr, Target: "t."})
 		case dns.TypeCNAME:
-			res.Answer = append(res.Answer, &dns.CNAME{Hdr: hdr, Target: "t."})
+			tgt := "t."
+			if len(p) > 3 {
+				tgt = p[3]
+			}
+			res.Answer = append(res.Answer, &dns.CNAME{Hdr: hdr, Target: tgt})
 		case dns.TypeA:
 			res.Answer = append(res.Answer, &dns.A{Hdr: hdr, A: net.IPv4(198, 18, 0, 2)})
 		default:
